@@ -100,6 +100,11 @@ var _ = digest.SpecHashSlot // spec functions used by the contracts below
 //@   modifies heap, curDb, replayFailed, reqs, lastCmd, lastNArgs, lastA1, lastA2, lastA3, lastA4, lastReply, nDel, nPexpire
 //@   assert at call Do: never_the_newest: arg0 == "hdel" ==> !(exceptNewest && db#2 == newestDb)
 //@   assert at call Do: only_stale: arg0 == "hdel" ==> cpi#2.Mtime <= before
+//@   assert at call Do: the_position_a_restart_resumes_from_is_kept: arg0 == "hdel" && exceptNewest ==> cpi#2.Offset <= newest && (cpi#2.Offset == newest ==> db#2 != newestDb)
+//@   loop 1:
+//@     invariant newest_is_the_largest_offset_seen: len(cpis) == len(dbs) && (forall j int :: 0 <= j && j < len(cpis) ==> cpis[j] != nil && cpis[j].Offset <= newest)
+//@   loop 2:
+//@     invariant newest_is_the_largest_offset_seen: len(cpis) == len(dbs) && (forall j int :: 0 <= j && j < len(cpis) ==> cpis[j] != nil && cpis[j].Offset <= newest)
 
 // ---- co-located bookkeeping keys (C18): the tag generated for slot s hashes to s -------------
 //@ func initBisyncSlotTags
